@@ -159,6 +159,11 @@ func C04(t *rapid.T) *world.Scenario {
 			// must be validated on every reuse, so the origin can change Vary with a full reply
 			rp.Header[1] = H("Cache-Control", "max-age="+itoa(life)+", no-cache")
 		}
+		if Pct(t, lbl+"-mw", 8) {
+			// an upstream that forwards a rewritten copy of the request and reports that copy in
+			// Response.Request: the variant is still defined by what the client asked with
+			rp.RespReqWithout = Pick(t, lbl+"-mwf", "X-A", "X-B", "Authorization", "Accept-Encoding")
+		}
 		rq.Uncond = rp
 		switch Weighted(t, lbl+"-cond", 30, 25, 25, 20) {
 		case 3:
@@ -184,6 +189,13 @@ func C04(t *rapid.T) *world.Scenario {
 			rq.Cond = c
 		}
 		sc.Steps = append(sc.Steps, ReqStep(rq))
+	}
+	if Pct(t, "lostwrites", 10) {
+		// store operations that fail (a full disk, a time-out): what the store then holds is
+		// still never the wrong variant for a request
+		for i := 0; i < rapid.IntRange(1, 2).Draw(t, "nlost"); i++ {
+			sc.Faults = append(sc.Faults, world.Fault{At: rapid.IntRange(0, 30).Draw(t, "lostat"+itoa(int64(i))), Kind: Pick(t, "lostkind"+itoa(int64(i)), "err", "err", "notexist")})
+		}
 	}
 	return sc
 }
